@@ -269,6 +269,88 @@ def _append_loops(fn):
     return fn
 
 
+def _scalarise_records(model, rel, fn):
+    """N15: a local that only ever holds instances of an artefact NamedTuple class (one that did not exist in the baseline), built by
+    direct constructor calls, and that is only read field by field, is replaced by one local per field:
+    `r = K(a, b); f(r.x, r.y)`  ->  `r__x = a; r__y = b; f(r__x, r__y)` (same evaluation order of the arguments)."""
+    recs = {}
+    for s_ in model.files[rel].clean_tree.body:
+        if isinstance(s_, ast.ClassDef) and s_.name not in baseline().get(rel, set()) and any(ast.unparse(b).split(".")[-1] == "NamedTuple" for b in s_.bases):
+            fields = [x.target.id for x in s_.body if isinstance(x, ast.AnnAssign) and isinstance(x.target, ast.Name)]
+            defaults = {x.target.id: x.value for x in s_.body if isinstance(x, ast.AnnAssign) and isinstance(x.target, ast.Name) and x.value is not None}
+            if fields:
+                recs[s_.name] = (fields, defaults)
+    if not recs:
+        return
+    parents = {}
+    for n in ast.walk(fn):
+        for ch in ast.iter_child_nodes(n):
+            parents[id(ch)] = n
+    cands = {}
+    bad = set()
+    for n in ast.walk(fn):
+        if isinstance(n, ast.Name):
+            par = parents.get(id(n))
+            if isinstance(n.ctx, ast.Store):
+                ok = isinstance(par, (ast.Assign, ast.AnnAssign)) and (par.targets == [n] if isinstance(par, ast.Assign) else par.target is n) and isinstance(par.value, ast.Call) \
+                    and isinstance(par.value.func, ast.Name) and par.value.func.id in recs and not any(isinstance(a, ast.Starred) for a in par.value.args) \
+                    and all(k.arg is not None for k in par.value.keywords)
+                if ok:
+                    cands.setdefault(n.id, set()).add(par.value.func.id)
+                else:
+                    bad.add(n.id)
+            elif isinstance(n.ctx, ast.Load):
+                if not (isinstance(par, ast.Attribute) and par.value is n and isinstance(par.ctx, ast.Load)):
+                    bad.add(n.id)
+            else:
+                bad.add(n.id)
+        elif isinstance(n, ast.arg):
+            bad.add(n.arg)
+    todo = {v: next(iter(ks)) for v, ks in cands.items() if v not in bad and len(ks) == 1}
+    for v, k in list(todo.items()):
+        fields, defaults = recs[k]
+        for n in ast.walk(fn):
+            if isinstance(n, ast.Attribute) and isinstance(n.value, ast.Name) and n.value.id == v and n.attr not in fields:
+                todo.pop(v, None)          # a method or a tuple attribute is used: leave the record alone
+    if not todo:
+        return
+
+    class T(ast.NodeTransformer):
+        def visit_Attribute(self, n):
+            self.generic_visit(n)
+            if isinstance(n.value, ast.Name) and n.value.id in todo and isinstance(n.ctx, ast.Load):
+                return _loc(ast.Name(id=f"{n.value.id}__{n.attr}", ctx=ast.Load()), n)
+            return n
+
+        def _split(self, st, tgt, call):
+            fields, defaults = recs[todo[tgt.id]]
+            vals = dict(zip(fields, call.args))
+            for kx in call.keywords:
+                vals[kx.arg] = kx.value
+            out = []
+            for f_ in fields:
+                v_ = vals.get(f_, defaults.get(f_))
+                if v_ is None:
+                    return None
+                out.append(_loc(ast.Assign(targets=[ast.Name(id=f"{tgt.id}__{f_}", ctx=ast.Store())], value=self.visit(v_)), st))
+            return out
+
+        def visit_Assign(self, n):
+            if len(n.targets) == 1 and isinstance(n.targets[0], ast.Name) and n.targets[0].id in todo:
+                r = self._split(n, n.targets[0], n.value)
+                if r is not None:
+                    return r
+            return self.generic_visit(n)
+
+        def visit_AnnAssign(self, n):
+            if isinstance(n.target, ast.Name) and n.target.id in todo and n.value is not None:
+                r = self._split(n, n.target, n.value)
+                if r is not None:
+                    return r
+            return self.generic_visit(n)
+    T().visit(fn)
+
+
 def _terminates(stmts) -> bool:
     return bool(stmts) and isinstance(stmts[-1], (ast.Return, ast.Raise, ast.Continue, ast.Break))
 
@@ -865,6 +947,7 @@ def normalize_function(model, rel, fn, owner_cls=None):
             il.run(n, dict(sib))
             inl.inlined |= il.inlined
     _append_loops(new)
+    _scalarise_records(model, rel, new)
     new = _Canon().visit(new)
     _guard_clauses(new)
     # nested baseline closures get the canonicalisation too (they were visited by _Canon); guard clauses per nested def:
